@@ -180,6 +180,10 @@ type scenario struct {
 	// stmtBound / syncBound: preemption bounds per tier {quick, thorough}
 	syncBound [2]int
 	stmtBound [2]int
+	// privatePool: the certificate pool traffic of this scenario is confined to one thread at a time (behind
+	// the object's lock, or after the once-only initialisation); the "call <Pool>.<Method>" points are then
+	// left out at sync granularity (they remain covered at statement granularity).
+	privatePool bool
 }
 
 func guard(name string, f func() string) func() string {
@@ -233,7 +237,7 @@ func scenarios() []*scenario {
 					{{"Verify#2", ver}},
 				}, final: func() string { return "" }}
 			}},
-		{id: "S3", title: "shared mobile.Reader: ReadDocument || SetApduMaxLe;SkipImages || ReadDocument", syncBound: [2]int{2, 2}, stmtBound: [2]int{2, 2},
+		{id: "S3", title: "shared mobile.Reader: ReadDocument || SetApduMaxLe;SkipImages || ReadDocument", syncBound: [2]int{2, 2}, stmtBound: [2]int{2, 2}, privatePool: true,
 			make: func(e *env) *instance {
 				chip := e.w.NewChip()
 				st := &mobileStatus{}
@@ -257,7 +261,7 @@ func scenarios() []*scenario {
 					return fmt.Sprintf("%s status=%d/%d loaders=%v", chip.Observe(), st.n, st.dgs, cms.VerifLoaderCalls())
 				}}
 			}},
-		{id: "S4", title: "two reader.Readers and a verifier.Verifier sharing one GenericCertPool inside a CombinedCertPool", syncBound: [2]int{2, 3}, stmtBound: [2]int{1, 1},
+		{id: "S4", title: "two reader.Readers and a verifier.Verifier sharing one GenericCertPool inside a CombinedCertPool", syncBound: [2]int{2, 2}, stmtBound: [2]int{1, 1},
 			make: func(e *env) *instance {
 				shared := e.pool()
 				other := &cms.GenericCertPool{}
@@ -293,7 +297,7 @@ func scenarios() []*scenario {
 }
 
 func s5(id, title string, fail bool) *scenario {
-	return &scenario{id: id, title: title, syncBound: [2]int{2, 3}, stmtBound: [2]int{1, 1},
+	return &scenario{id: id, title: title, syncBound: [2]int{2, 3}, stmtBound: [2]int{1, 1}, privatePool: true,
 		make: func(e *env) *instance {
 			cms.VerifSetStubFail(fail)
 			v := mobile.NewVerifier()
@@ -430,7 +434,11 @@ func (e *env) runScheduled(sc *scenario, gran vs.Granularity, prefix []int, expe
 			}
 		}
 	}
-	ex := vs.Run(vs.Options{Prefix: prefix, Expect: expect, Gran: gran, StartPoint: gran == vs.GranSync, StateKeys: keys, MaxSteps: 400000}, bodies...)
+	var skip []string
+	if sc.privatePool && gran == vs.GranSync {
+		skip = []string{"call "}
+	}
+	ex := vs.Run(vs.Options{Prefix: prefix, Expect: expect, Gran: gran, StartPoint: gran == vs.GranSync, StateKeys: keys, MaxSteps: 400000, SkipYield: skip}, bodies...)
 	// a thread that did not complete (deadlock) has fewer results; pad for a stable shape
 	for i := range res {
 		for len(res[i]) < len(inst.threads[i]) {
